@@ -729,7 +729,51 @@ func c10(c *Ctx) {
 			}
 			r.Check("elements:"+F+":filter-on-every-path", uc.Block() == cl.Blocks[0], uc.Pos(), "uniqueFilterAndAddTags is applied to every element")
 			a := uc.Common().Args
-			r.Check("elements:"+F+":filter-args", paramIndex(cl, a[1]) == 0 && strings.HasSuffix(pathOf(a[2]), ".Source") && strings.HasSuffix(pathOf(a[3]), ".Tags"), uc.Pos(), "(name, &elem.Source, &elem.Tags)")
+			// the filter's verdict on source and tags must reach the element that is stored: either it works
+			// in place (&elem.Source, &elem.Tags) or its results are assigned to both fields of the element
+			// before the element is stored
+			applied := func(field string, arg ssa.Value) (bool, string) {
+				if _, isPtr := arg.Type().Underlying().(*types.Pointer); isPtr {
+					if t, f, _, ok := fieldRef(arg); ok && f == field && isAggType2(t) {
+						return true, "&elem." + field
+					}
+					return false, "pointer argument is not &elem." + field
+				}
+				// by value: some result of the call must be stored into elem.<field> on the way to every store of the element
+				if !strings.HasSuffix(pathOf(arg), "."+field) {
+					return false, "argument is not elem." + field
+				}
+				var st *ssa.Store
+				for _, ref := range referrers(uc.(ssa.Value)) {
+					ex, ok := ref.(*ssa.Extract)
+					if !ok {
+						continue
+					}
+					for _, r2 := range referrers(ex) {
+						if s2, ok := r2.(*ssa.Store); ok && s2.Val == ssa.Value(ex) {
+							if t, f, _, ok := fieldRef(s2.Addr); ok && f == field && isAggType2(t) {
+								st = s2
+							}
+						}
+					}
+				}
+				if st == nil {
+					return false, "the filter's " + field + " result is not assigned to elem." + field
+				}
+				okDom := true
+				eachInstr(cl, func(in ssa.Instruction) {
+					if mu, ok := in.(*ssa.MapUpdate); ok && !instrDominates(st, mu) {
+						okDom = false
+					}
+				})
+				if !okDom {
+					return false, "elem." + field + " is assigned the filter's result only on some paths to the store"
+				}
+				return true, "elem." + field + " = result"
+			}
+			okS, whyS := applied("Source", a[2])
+			okT, whyT := applied("Tags", a[3])
+			r.Check("elements:"+F+":filter-args", paramIndex(cl, a[1]) == 0 && okS && okT, uc.Pos(), "(name, &elem.Source, &elem.Tags) or results assigned back: "+whyS+"; "+whyT)
 			bad := false
 			eachInstr(cl, func(in ssa.Instruction) {
 				if _, ok := in.(*ssa.MapUpdate); ok {
@@ -799,7 +843,7 @@ func c10(c *Ctx) {
 			r.Check("elements:"+F+":rekeyed", okKey && nKeys >= 1, cl.Pos(), "the tags key of every lookup / store in the rebuilt map is recomputed from the filtered source and tags"+map[bool]string{true: "", false: ": " + whyKey}[okKey])
 		}
 		// collision merge = C07 rules restricted to this function
-		sub := &Ctx{W: w, Prop: c.Prop, Tier: c.Tier, known: c.known}
+		sub := &Ctx{W: w, Prop: c.Prop, Tier: c.Tier, known: c.known, Sub: true}
 		c07(sub)
 		for _, sr := range sub.Rules {
 			if sr.ID == "C07.R6" {
@@ -827,6 +871,10 @@ func actionName(in ssa.Instruction) string {
 		return "drop-host"
 	}
 	return "action"
+}
+
+func isAggType2(name string) bool {
+	return name == "Counter" || name == "Gauge" || name == "Timer" || name == "Set"
 }
 
 func stripLoad(v ssa.Value) ssa.Value {
